@@ -39,6 +39,16 @@ for pid in sorted(MODS):
         meas = "%s / %s / %.0f s (%s)" % (c.get("states"), c.get("evaluations"), e["wall_s"], e["tier"])
     else:
         meas = "-"
+    # the last full sweeps (out/logs, not committed): quick seed 1 and thorough seed 1
+    sweep = []
+    for tier, pat in (("quick", "/verif/out/logs/final_quick_s1.log"), ("thorough", "/verif/out/logs/final_thorough_*.log")):
+        for lf in glob.glob(pat):
+            for l in open(lf, errors="replace"):
+                mm = re.search(r"^%s .*?(?:OK|KNOWN-FINDING).*?property=%s tier=%s seed=1 states=(\d+) evaluations=(\d+).*? wall=([\d.]+)s" % (pid, pid, tier), l)
+                if mm:
+                    sweep.append("%s: %s / %s / %.0f s" % (tier, mm.group(1), mm.group(2), float(mm.group(3))))
+    if sweep:
+        meas = "; ".join(sweep)
     verdict = "holds" if pid not in open_by else "open finding(s): " + ", ".join(open_by[pid])
     out.append("| %s | %s | %s | %s | %s |" % (pid, MODS[pid][0], MODS[pid][1], meas, verdict))
 out.append("")
